@@ -827,6 +827,9 @@ enum CMut {
     /// give sub-proof i the key of another range (committed or not)
     AlterKey(u16, u16),
     DupSub(u16),
+    /// a second entry for the key of sub-proof i whose inner proof is mutated (same key, same claimed root unless the
+    /// mutation touches it), placed before or after the genuine entry
+    DupSubAltered { i: u16, before: bool, m: PMut },
     EmptySubs,
     /// replace sub-proof i by an honest proof of the same range in ANOTHER map (other root)
     ForeignSub(u16),
@@ -1014,6 +1017,25 @@ fn c_case(c: &CCase) -> Report {
                     true
                 }
             }
+            CMut::DupSubAltered { i, before, m } => {
+                if ns == 0 {
+                    false
+                } else {
+                    let p = pick_index(*i, ns);
+                    if let PMut::ReplaceLeaf { with: LeafWith::NonMember(x), .. } = m {
+                        injected.push(MKTreeNode::from(format!("foreign-{x}")));
+                    }
+                    let mut copy = v["sub_proofs"][p].clone();
+                    let pos: Vec<u64> = copy[1]["master_proof"]["inner_leaves"].as_array().map(|a| a.iter().filter_map(|l| l[0].as_u64()).collect()).unwrap_or_default();
+                    if apply_pmut(&mut copy[1]["master_proof"], m, &all_leaves, &internals, &pos) {
+                        let at = if *before { p } else { p + 1 };
+                        v["sub_proofs"].as_array_mut().unwrap().insert(at, copy);
+                        true
+                    } else {
+                        false
+                    }
+                }
+            }
             CMut::EmptySubs => {
                 if ns == 0 {
                     false
@@ -1121,6 +1143,7 @@ fn c_strategy() -> impl Strategy<Value = CCase> {
         2 => (r, r).prop_map(|(i, j)| CMut::SwapSubs(i, j)),
         2 => (r, r).prop_map(|(i, j)| CMut::AlterKey(i, j)),
         1 => r.prop_map(CMut::DupSub),
+        4 => (r, any::<bool>(), pmut_strategy()).prop_map(|(i, before, m)| CMut::DupSubAltered { i, before, m }),
         1 => Just(CMut::EmptySubs),
         2 => r.prop_map(CMut::ForeignSub),
     ];
